@@ -34,6 +34,13 @@ def _sym(c):
     return isinstance(c, SymInt)
 
 
+def _out(cps):
+    """text for a list of code points: an ordinary str when nothing in it is symbolic"""
+    if any(isinstance(c, SymInt) for c in cps):
+        return SymStr(cps)
+    return ''.join(chr(c) for c in cps)
+
+
 class SymStr:
     """immutable text: list of code points (int | SymInt)"""
 
@@ -67,10 +74,10 @@ class SymStr:
 
     def __getitem__(self, i):
         if isinstance(i, slice):
-            return SymStr(self.cps[i])
+            return _out(self.cps[i])
         if isinstance(i, SymInt):
             raise EngineLimit('symbolic index into symbolic text')
-        return SymStr([self.cps[i]])
+        return _out([self.cps[i]])
 
     def __add__(self, o):
         if isinstance(o, (str, SymStr)):
@@ -178,19 +185,66 @@ class SymStr:
         return bool(_in_ranges(c, category_ranges('space')))
 
     def strip(self, chars=None):
-        return self.lstrip(chars).rstrip(chars)
+        return SymStr.of(self.lstrip(chars)).rstrip(chars)
 
     def lstrip(self, chars=None):
         cps = list(self.cps)
         while cps and self._strip_test(cps[0], chars):
             cps.pop(0)
-        return SymStr(cps)
+        return _out(cps)
 
     def rstrip(self, chars=None):
         cps = list(self.cps)
         while cps and self._strip_test(cps[-1], chars):
             cps.pop()
-        return SymStr(cps)
+        return _out(cps)
+
+    def replace(self, old, new, count=-1):
+        if count != -1:
+            raise EngineLimit('str.replace with a count on symbolic text')
+        old, new = SymStr.of(old).cps, SymStr.of(new).cps
+        if not old:
+            raise EngineLimit('str.replace of the empty string on symbolic text')
+        out, i, n = [], 0, len(self.cps)
+        while i < n:
+            if i + len(old) <= n and SymStr(self.cps[i:i + len(old)])._eq(SymStr(old)):
+                out.extend(new)
+                i += len(old)
+            else:
+                out.append(self.cps[i])
+                i += 1
+        return _out(out)
+
+    def split(self, sep=None, maxsplit=-1):
+        if maxsplit != -1:
+            raise EngineLimit('str.split with maxsplit on symbolic text')
+        parts, cur = [], []
+        if sep is None:
+            for c in self.cps:
+                if self._is_space(c):
+                    if cur:
+                        parts.append(_out(cur))
+                        cur = []
+                else:
+                    cur.append(c)
+            if cur:
+                parts.append(_out(cur))
+            return parts
+        sep = SymStr.of(sep).cps
+        i, n = 0, len(self.cps)
+        while i < n:
+            if i + len(sep) <= n and SymStr(self.cps[i:i + len(sep)])._eq(SymStr(sep)):
+                parts.append(_out(cur))
+                cur = []
+                i += len(sep)
+            else:
+                cur.append(self.cps[i])
+                i += 1
+        parts.append(_out(cur))
+        return parts
+
+    def isspace(self):
+        return len(self.cps) > 0 and all(self._is_space(c) for c in self.cps)
 
     def _strip_test(self, c, chars):
         if chars is None:
@@ -508,7 +562,7 @@ class SymMatch:
         res = []
         for i in idx:
             sp = self.spans.get(i)
-            res.append(None if sp is None else SymStr(self.string.cps[sp[0]:sp[1]]))
+            res.append(None if sp is None else _out(self.string.cps[sp[0]:sp[1]]))
         return res[0] if len(res) == 1 else tuple(res)
 
     def groups(self, default=None):
@@ -570,7 +624,14 @@ def _m(nodes, k, cps, pos, groups):
     op, av = nodes[k]
     n = len(cps)
     if op is _sre_c.LITERAL:
-        if pos < n and cps[pos] == av:
+        hit = False
+        if pos < n:
+            core.PREFER[0] = True            # search order: try to get deeper into the pattern first
+            try:
+                hit = bool(cps[pos] == av)
+            finally:
+                core.PREFER[0] = None
+        if hit:
             yield from _m(nodes, k + 1, cps, pos + 1, groups)
     elif op is _sre_c.NOT_LITERAL:
         if pos < n and cps[pos] != av:
@@ -714,8 +775,26 @@ class SymPattern:
                 else:
                     pos = b
             out.extend(s.cps[pos:])
-            return SymStr(out)
+            return _out(out)
         return self._real.sub(repl, s, count)
+
+    def split(self, s, maxsplit=0):
+        if isinstance(s, SymStr):
+            if maxsplit or self._real.groups:
+                raise EngineLimit('re.split with maxsplit / groups on symbolic text')
+            parts, cur, pos, n = [], [], 0, len(s.cps)
+            while pos < n:
+                m = self._run(s, pos, False)
+                if m is not None and m.end() > pos:
+                    parts.append(_out(cur))
+                    cur = []
+                    pos = m.end()
+                else:
+                    cur.append(s.cps[pos])
+                    pos += 1
+            parts.append(_out(cur))
+            return parts
+        return self._real.split(s, maxsplit)
 
     def __getattr__(self, name):
         return getattr(self._real, name)
@@ -758,9 +837,12 @@ class ReProxy:
     def sub(self, pattern, repl, s, count=0, flags=0):
         return self.compile(pattern, flags).sub(repl, s, count)
 
+    def split(self, pattern, s, maxsplit=0, flags=0):
+        return self.compile(pattern, flags).split(s, maxsplit)
+
     def __getattr__(self, name):
         v = getattr(_re, name)
-        if callable(v) and name in ('split', 'findall', 'finditer', 'subn'):
+        if callable(v) and name in ('findall', 'finditer', 'subn'):
             def guarded(pattern, s, *a, **k):
                 if isinstance(s, SymStr):
                     raise EngineLimit('re.%s on symbolic text' % name)
@@ -781,3 +863,19 @@ def sym_chars(p, n, prefix='c', line_text=True, ascii_only=()):
                 p.assume(c != lb)
         out.append(c)
     return out
+
+
+def sym_ord(x):
+    """ord() of a one-character symbolic text is its code point"""
+    if isinstance(x, SymStr):
+        if len(x.cps) != 1:
+            raise TypeError('ord() expected a character, but string of length %d found' % len(x.cps))
+        return x.cps[0]
+    return ord(x)
+
+
+def install(mod):
+    """bind the module-level names a shimmed copy of asm.py needs for symbolic text"""
+    mod.re = ReProxy()
+    mod.ord = sym_ord
+    return mod
